@@ -110,7 +110,10 @@ func decodeParamFilter(el *paramFilter) (*ParamFilter, error) {
 		pf.IsNotDefined = true
 	}
 	if el.TextMatch != nil {
-		pf.TextMatch = &TextMatch{Text: el.TextMatch.Text}
+		pf.TextMatch = &TextMatch{
+			Text:            el.TextMatch.Text,
+			NegateCondition: bool(el.TextMatch.NegateCondition),
+		}
 	}
 	return pf, nil
 }
@@ -124,7 +127,10 @@ func decodePropFilter(el *propFilter) (*PropFilter, error) {
 		pf.IsNotDefined = true
 	}
 	if el.TextMatch != nil {
-		pf.TextMatch = &TextMatch{Text: el.TextMatch.Text}
+		pf.TextMatch = &TextMatch{
+			Text:            el.TextMatch.Text,
+			NegateCondition: bool(el.TextMatch.NegateCondition),
+		}
 	}
 	if el.TimeRange != nil {
 		pf.Start = time.Time(el.TimeRange.Start)
@@ -181,6 +187,7 @@ func decodeComp(comp *comp) (*CalendarCompRequest, error) {
 	}
 
 	req := &CalendarCompRequest{
+		Name:     comp.Name,
 		AllProps: comp.Allprop != nil,
 		AllComps: comp.Allcomp != nil,
 	}
@@ -198,18 +205,39 @@ func decodeComp(comp *comp) (*CalendarCompRequest, error) {
 }
 
 func decodeCalendarDataReq(calendarData *calendarDataReq) (*CalendarCompRequest, error) {
-	if calendarData.Comp == nil {
-		return &CalendarCompRequest{
-			AllProps: true,
-			AllComps: true,
-		}, nil
+	req := &CalendarCompRequest{
+		AllProps: true,
+		AllComps: true,
 	}
-	return decodeComp(calendarData.Comp)
+	if calendarData.Comp != nil {
+		var err error
+		req, err = decodeComp(calendarData.Comp)
+		if err != nil {
+			return nil, err
+		}
+	}
+	if calendarData.Expand != nil {
+		req.Expand = &CalendarExpandRequest{
+			Start: time.Time(calendarData.Expand.Start),
+			End:   time.Time(calendarData.Expand.End),
+		}
+	}
+	return req, nil
 }
 
 func (h *Handler) handleQuery(r *http.Request, w http.ResponseWriter, query *calendarQuery) error {
 	var q CalendarQuery
-	// TODO: calendar-data in query.Prop
+	if query.Prop != nil {
+		var calendarData calendarDataReq
+		if err := query.Prop.Decode(&calendarData); err != nil && !internal.IsNotFound(err) {
+			return err
+		}
+		decoded, err := decodeCalendarDataReq(&calendarData)
+		if err != nil {
+			return err
+		}
+		q.CompRequest = *decoded
+	}
 	cf, err := decodeCompFilter(&query.Filter.CompFilter)
 	if err != nil {
 		return err
